@@ -1,0 +1,6 @@
+//go:build !verif
+
+package keystore
+
+func verifSignAttempt()  {}
+func verifSignProduced() {}
